@@ -25,6 +25,7 @@ type pollInfo struct {
 	call    *ssa.Call
 	returns bool
 	keeps   bool
+	drops   bool
 	viaVar  bool
 }
 
@@ -89,10 +90,16 @@ func pollsOf(fn *ssa.Function, ep *errProv) []pollInfo {
 								if !isErrorType(rv.Type()) {
 									continue
 								}
+								hasCtx := false
 								for _, o := range ep.origins(rv) {
 									if o.kind == "ctx" {
-										pi.keeps = true
+										hasCtx = true
 									}
+								}
+								if hasCtx {
+									pi.keeps = true
+								} else {
+									pi.drops = true // a return on the cancelled branch whose error is not the context's own
 								}
 							}
 						}
@@ -131,6 +138,9 @@ func runC11(c *Ctx) {
 			npoll++
 			key := core.FnName(fn) + sprintf("#%d", i+1)
 			switch {
+			case pi.returns && pi.keeps && pi.drops:
+				pollFns[outer(fn)] = true
+				r.Violate("poll-shape", key, p.Pos(pi.call.Pos()), "on the branch where ctx.Err() is non-nil one of the returns reports an error that is not the value ctx.Err() returned (a fixed sentinel or a new error): for that outcome errors.Is(err, ctx.Err()) fails, e.g. an explicit cancel reported as DeadlineExceeded")
 			case pi.returns && pi.keeps:
 				pollFns[outer(fn)] = true
 				r.OK("poll-shape", key, p.Pos(pi.call.Pos()), "returns the context error (direct or %w)")
